@@ -5,10 +5,19 @@
 // string so that the 16382-byte chunk boundary of Xdl::read falls on every position of the tree's text.
 // Case: {"tree":T, "exp":E, "xdl":bool, "sweep":bool, "hz":[...]}
 //   T: z | b:0/1 | i:[neg,hi,lo] | d:[4 limbs] | f:[2 limbs] | s:[bytes] | a:[T..] | o:[[keybytes,T]..]
+//      | none:0 (NONE-typed Var) | nan:64/32 | inf:0/1 (negative), w:64/32
+// Writer case (spec/XdlWriterEnum.tla): {"tree":T, "mode":m, "text":[bytes], "lay":bool, "exp":E, "approx":bool, "xdl":bool}
+//   text = Ser(tree, mode) of spec/XdlWriter.tla: Xdl::encode(v, mode) - and Json::encode(v, mode without the JSON bit)
+//   when that bit is set - and the files written by Xdl::write / Json::write must consist of exactly these bytes (lay),
+//   and decoding the library's own text must give exp.
+// File case (spec/XdlFile.tla): {"pre":[bytes], "body":[bytes], "padto":n, "k":"doc"|"any", "v":E}: a file with these contents
+//   (byte-order marks, CR LF, short files, text after the value ...): Json::read = Xdl::read = Json::decode(contents without
+//   the mark), and for k = doc the value is the recognizer's.
 #include "c06_common.h"
 #include "vrun.h"
 #include <asl/File.h>
 #include <unistd.h>
+#include <math.h>
 
 using vrun::Outcome;
 using namespace asl;
@@ -23,6 +32,13 @@ static Var build(const vj::Value& t)
 	if (t.has("d")) return Var(jx::fromLimbs64(t["d"]));
 	if (t.has("f")) return Var(jx::fromLimbs32(t["f"]));
 	if (t.has("s")) return Var(t["s"].bytes().c_str());
+	if (t.has("none")) return Var();
+	if (t.has("nan")) return t["nan"].i() == 32 ? Var((float)NAN) : Var((double)NAN);
+	if (t.has("inf"))
+	{
+		double x = t["inf"].i() ? -INFINITY : INFINITY;
+		return t["w"].i() == 32 ? Var((float)x) : Var(x);
+	}
 	if (t.has("a"))
 	{
 		Var v(Var::ARRAY);
@@ -111,8 +127,107 @@ static std::string slurp(const std::string& path)
 			return Outcome::fail(std::string(label) + ": " + _why + " ; text " + vj::quote(std::string(text).substr(0, 300)));    \
 	} while (0)
 
+static std::string showText(const std::string& t)
+{
+	return vj::quote(t.substr(0, 400)) + (t.size() > 400 ? "..." : "");
+}
+
+// writer cases: the library's text against the specification's serializer, byte for byte
+static Outcome runWriterCase(const vj::Value& c)
+{
+	Outcome res;
+	const vj::Value& tree = c["tree"];
+	const vj::Value& exp = c["exp"];
+	int mode = c["mode"].i();
+	bool json = (mode & Json::JSON) != 0, lay = c["lay"].b, approx = c["approx"].b, xdl = c["xdl"].b;
+	std::string want = c["text"].bytes();
+	Var v = build(tree);
+	res.nontrivial = tree.has("a") || tree.has("o");
+	char lab[96];
+	snprintf(lab, sizeof lab, "Xdl::encode(v, %d)", mode);
+	String text = Xdl::encode(v, mode);
+	std::string got(*text, (size_t)text.length());
+	if (lay && got != want)
+		return Outcome::fail(std::string(lab) + " wrote " + showText(got) + " , the specification's serializer gives " + showText(want));
+	if (json)
+	{
+		String t2 = Json::encode(v, Json::Mode(mode & ~Json::JSON));
+		if (std::string(*t2, (size_t)t2.length()) != got)
+			return Outcome::fail("Json::encode(v, " + std::to_string(mode & ~Json::JSON) + ") differs from " + lab + ": " + showText(*t2) + " vs " + showText(got));
+	}
+	// the same bytes through a file
+	char name[300];
+	snprintf(name, sizeof name, "%s/c05w-%d.tmp", g_tmp.c_str(), (int)getpid());
+	String path(name);
+	if (!Xdl::write(v, path, mode)) return Outcome::fail("harness: cannot write " + std::string(name));
+	std::string ftext = slurp(name);
+	if (ftext != got)
+		return Outcome::fail("Xdl::write(v, file, " + std::to_string(mode) + ") wrote " + showText(ftext) + " , encode gives " + showText(got));
+	if (json)
+	{
+		Json::write(v, path, Json::Mode(mode & ~Json::JSON));
+		if (slurp(name) != got)
+			return Outcome::fail("Json::write(v, file, " + std::to_string(mode & ~Json::JSON) + ") wrote " + showText(slurp(name)) + " , encode gives " + showText(got));
+	}
+	// the reader's side of the writer's dialect (XDL: identifier keys only)
+	if (json || xdl)
+	{
+		Var dec = json ? Json::decode(text) : Xdl::decode(text);
+		CHECK_RT(lab, got, dec, approx);
+		Var r = json ? Json::read(path) : Xdl::read(path);
+		CHECK_RT(std::string(lab) + " through a file", got, r, approx);
+	}
+	unlink(name);
+	return res;
+}
+
+// file cases (spec/XdlFile.tla): contents = pre + blanks up to padto bytes + body
+static Outcome runFileCase(const vj::Value& c)
+{
+	Outcome res;
+	std::string pre = c["pre"].bytes(), body = c["body"].bytes();
+	long padto = (long)c["padto"].ll();
+	std::string content = pre;
+	if (padto > 0)
+	{
+		if ((long)(pre.size() + body.size()) > padto) return Outcome::fail("harness: padto smaller than the contents");
+		content += std::string((size_t)padto - pre.size() - body.size(), ' ');
+	}
+	content += body;
+	for (size_t i = 0; i < content.size(); i++)
+		if (content[i] == 0) return Outcome::fail("harness: NUL byte in generated file contents");
+	res.nontrivial = content.size() >= 3;
+	char name[300];
+	snprintf(name, sizeof name, "%s/c05f-%d.tmp", g_tmp.c_str(), (int)getpid());
+	FILE* f = fopen(name, "wb");
+	if (!f) return Outcome::fail("harness: cannot write " + std::string(name));
+	if (!content.empty() && fwrite(content.data(), 1, content.size(), f) != content.size()) { fclose(f); return Outcome::fail("harness: short write"); }
+	fclose(f);
+	String path(name);
+	Var jr = Json::read(path);
+	Var xr = Xdl::read(path);
+	unlink(name);
+	std::string what = "file of " + std::to_string(content.size()) + " bytes " + showText(pre) + " + " + std::to_string(content.size() - pre.size() - body.size()) + " blanks + " + showText(body);
+	std::string pj = jx::project(jr), px = jx::project(xr);
+	if (pj != px) return Outcome::fail("Json::read and Xdl::read disagree on a " + what + ": " + pj.substr(0, 200) + " vs " + px.substr(0, 200));
+	bool bom = content.size() >= 3 && (unsigned char)content[0] == 0xef && (unsigned char)content[1] == 0xbb && (unsigned char)content[2] == 0xbf;
+	std::string strip = bom ? content.substr(3) : content;
+	std::string pd = jx::project(Json::decode(String(strip.c_str())));
+	if (pj != pd)
+		return Outcome::fail("Json::read of a " + what + " gives " + pj.substr(0, 200) + " , decoding the same contents (without byte-order mark) gives " + pd.substr(0, 200));
+	if (c["k"].s() == "doc")
+	{
+		if (!jr.ok()) return Outcome::fail("Json::read rejects a " + what + " whose contents are a valid document");
+		std::string why;
+		if (!jx::matches(jr, c["v"], why)) return Outcome::fail("Json::read of a " + what + ": " + why);
+	}
+	return res;
+}
+
 static Outcome runCase(const vj::Value& c)
 {
+	if (c.has("text")) return runWriterCase(c);
+	if (c.has("body")) return runFileCase(c);
 	Outcome res;
 	const vj::Value& tree = c["tree"];
 	const vj::Value& exp = c["exp"];
